@@ -14,7 +14,7 @@ type zzTRec struct{ evs []event.Event }
 
 func (r *zzTRec) Send(e event.Event) { r.evs = append(r.evs, e) }
 
-func zzTftpSend(s *tftpService, payload []byte, ip net.IP) [][]byte {
+func zzTftpSend(s zzUDPService, payload []byte, ip net.IP) [][]byte {
 	var replies [][]byte
 	conn := &listener.DummyUDPConn{Buffer: payload, Laddr: &net.UDPAddr{IP: net.IPv4(10, 0, 0, 1), Port: 69},
 		Raddr: &net.UDPAddr{IP: ip, Port: 40000},
@@ -63,4 +63,61 @@ func zzH_C03_tftphistory() {
 		m := event.ToMap(ev)
 		zzAssert(m["source-ip"] == "10.7.7.7", "events of the probe carry the probe's own address")
 	}
+}
+
+
+// zzUDPHistory: the differential of tftp-history for any datagram service.
+func zzUDPHistory(mk func(rec *zzTRec) zzUDPService, draw func() []byte) {
+	probe := draw()
+	ipB := net.IPv4(10, 7, 7, 7)
+	want := zzTftpSend(mk(&zzTRec{}), append([]byte{}, probe...), ipB)
+	rec := &zzTRec{}
+	s := mk(rec)
+	h := zzLen(1, zzParam("H", 1))
+	for i := 0; i < h; i++ {
+		zzTftpSend(s, draw(), net.IPv4(10, 9, 9, byte(10+i)))
+	}
+	rec.evs = nil
+	got := zzTftpSend(s, append([]byte{}, probe...), ipB)
+	same := len(got) == len(want)
+	for i := 0; same && i < len(want); i++ {
+		same = len(got[i]) == len(want[i])
+		for k := 0; same && k < len(want[i]); k++ {
+			same = zzAnd(same, got[i][k] == want[i][k])
+		}
+	}
+	zzAssert(same, "a client is answered as by a fresh instance, whatever other clients sent before")
+	for _, ev := range rec.evs {
+		m := event.ToMap(ev)
+		zzAssert(m["source-ip"] == "10.7.7.7", "events of the probe carry the probe's own address")
+	}
+}
+
+// C03/memcached-history, C03/counterstrike-history: the same for the other rate-limited
+// datagram services (memcached: 8-byte frame header, then 1..2 commands from a table with a
+// symbolic key byte; counterstrike: 0..N symbolic bytes).
+func zzH_C03_memcachedhistory() {
+	zzUDPHistory(func(rec *zzTRec) zzUDPService {
+		s := Memcached().(*memcachedService)
+		s.SetChannel(rec)
+		return s
+	}, func() []byte {
+		cmds := []string{"stats", "flush_all", "get ", "version", "incr ", "x"}
+		payload := zzBytes(8)
+		nc := zzLen(1, zzParam("CMDS", 2))
+		for i := 0; i < nc; i++ {
+			k := zzString(1)
+			zzAssume(zzAnd(k[0] > 0x20, k[0] < 0x7f))
+			payload = append(payload, []byte(cmds[zzLen(0, len(cmds)-1)]+k+"\r\n")...)
+		}
+		return payload
+	})
+}
+
+func zzH_C03_cshistory() {
+	zzUDPHistory(func(rec *zzTRec) zzUDPService {
+		s := CounterStrike().(*counterStrikeService)
+		s.SetChannel(rec)
+		return s
+	}, func() []byte { return zzBytes(zzLen(0, zzParam("N", 5))) })
 }
